@@ -754,6 +754,18 @@ func (sg *schemaGenContext) MergeResult(other *schemaGenContext, liftsRequired b
 func (sg *schemaGenContext) buildProperties() error {
 	debugLog("building properties %s (parent: %s)", sg.Name, sg.Container)
 
+	fields := make(map[string]string, len(sg.Schema.Properties))
+	for k, v := range sg.Schema.Properties {
+		field := pascalize(goName(&v, k))
+		if prev, ok := fields[field]; ok {
+			if prev > k {
+				prev, k = k, prev
+			}
+			return fmt.Errorf("properties %q and %q of %s are both rendered as go field %s: please rename one of them (e.g. with x-go-name)", prev, k, sg.Name, field)
+		}
+		fields[field] = k
+	}
+
 	for k, v := range sg.Schema.Properties {
 		debugLogAsJSON("building property %s[%q] (IsTuple: %t) (IsBaseType: %t) (HasValidations: %t)",
 			sg.Name, k, sg.IsTuple, sg.GenSchema.IsBaseType, sg.GenSchema.HasValidations, v)
